@@ -15,7 +15,7 @@ APPL = {"Source": ["io", "po", "pl"], "PLoad": ["vi", "ii", "tr", "tp"], "ILoad"
         "RLoad": ["vi", "ii", "pi", "tr", "tp"], "Converter": ["vi", "vo", "ii", "io", "pi", "po", "pl", "tr", "tp"]}
 DEFAULT = {k: [0.0, 1.0e6] for k in KEYS}
 DEFAULT["tp"] = [-1.0e6, 1.0e6]
-PLACE = ["inside", "on-min", "on-max", "below-min", "above-max", "reversed"]
+PLACE = ["inside", "on-min", "on-max", "below-min", "above-max", "reversed", "min-only"]   # min-only: only the lower bound moved, the upper one left at the documented default
 
 
 def quantities(row, ta):
@@ -47,6 +47,10 @@ def expected_tokens(rec, q, limits, ph):
 
 def place(key, x, how, neg):
     """[min,max] placed relative to the reported quantity x; None when the placement is impossible."""
+    if how == "min-only":
+        if key == "tp":
+            return [x + 1e-6 * max(1.0, abs(x)), 1.0e6]
+        return None if x == 0 else [-(abs(x) * (1 + 1e-6)), 1.0e6]   # the minimum spelled with a negative sign
     if key == "tp":
         w = max(1.0, abs(x))
         return {"inside": [x - w, x + w], "on-min": [x, x + w], "on-max": [x - w, x], "below-min": [x + 1e-6 * w, x + w],
@@ -241,7 +245,7 @@ def check_case(case):
                     df, _ = quiet_call(s.solve, ta=ta)
                     obs = observe(df)
                     res.stats["evaluations"] += 1
-                    if hows[0] in ("below-min", "above-max", "on-min") and not neg and (any(c["k"] == "PMux" for c in sp["comps"]) or len(sp["comps"]) <= 2):
+                    if hows[0] in ("below-min", "above-max", "on-min", "min-only") and not neg and (any(c["k"] == "PMux" for c in sp["comps"]) or len(sp["comps"]) <= 2):
                         # the warnings survive a save / load round trip (each component is reloaded with ITS limits)
                         import os
                         from ..common import workdir
